@@ -48,7 +48,7 @@ def first_diff(a, b, path="", parent=None):
         kind = a.get("__kind__", parent)
         keys = sorted(set(a) | set(b))
         # compare kind first
-        for k in ["__kind__"] + [k for k in keys if k != "__kind__"]:
+        for k in (["__kind__"] if "__kind__" in keys else []) + [k for k in keys if k != "__kind__"]:
             if k not in a or k not in b:
                 return (path + "/" + k, kind, a.get(k, "<missing>"), b.get(k, "<missing>"))
             r = first_diff(a[k], b[k], path + "/" + k, kind)
